@@ -175,7 +175,7 @@ def queries(tier, seed):
     qs.append(q_bars("t1n2mc", "34", 2, None, False, 80, 80, multich=True))     # one track carrying two channels
     qs.append(q_bars("t2empty", "34", 1, "empty", False, 100, 100))
     qs.append(q_bars("t2long", "68-24", 1, "long", False, 60, 60))
-    qs.append(q_bars("t2n1", "44-34k", 1, 1, True, 100, 0))
+    qs.append(q_bars("t2n1", "44-34k", 1, 1, True, 40 if tier == "quick" else 100, 0))
     if tier == "thorough":
         qs.append(q_bars("t1n2", "44-34k", 2, None, False, 160, 120))
         qs.append(q_bars("t1n2", "34-58", 2, None, True, 120, 0))
